@@ -24,7 +24,7 @@ ASSUMPTIONS = [
 ]
 REQUIRED_CLASSES = ["nontrivial", "none", "meet", "slice", "defer", "equal_aspect", "doc_wider", "doc_taller",
                     "par_absent", "malformed_viewbox", "nonpositive", "tab_or_newline_separator",
-                    "multi_space", "case_variant", "negative_origin", "near_equal_aspect"]
+                    "multi_space", "case_variant", "negative_origin", "near_equal_aspect", "both_sizes_of_an_axis_nonpositive"]
 QUICK_SHARDS = 4
 
 plot_utils = sut.load("plot_utils")
@@ -211,7 +211,8 @@ def cases(draw):
     # identity classes
     if kind == 0:
         which = draw(st.sampled_from(["none", "empty", "short", "short", "nonnumeric", "nonnumeric",
-                                      "nonpositive", "nonpositive", "doc_nonpositive"]))
+                                      "nonpositive", "nonpositive", "doc_nonpositive", "both_nonpositive",
+                                      "both_nonpositive"]))
         if which == "none":
             vb_text = None
             sem = {"kind": "identity", "why": "malformed_viewbox"}
@@ -233,6 +234,20 @@ def cases(draw):
             toks[draw(st.sampled_from([2, 3]))] = draw(st.sampled_from(["0", "-5", "-0.0", "0.0", "-1e2"]))
             vb_text = " ".join(toks)
             sem = {"kind": "identity", "why": "nonpositive"}
+        elif which == "both_nonpositive":
+            # the viewBox size AND the document size of the same axis (or of both axes) are negative / zero: the
+            # quotient of two negatives is positive, the sizes are still non-positive
+            toks = list(vb_tokens)
+            axes = draw(st.sampled_from([[2], [3], [2, 3]]))
+            for axis in axes:
+                toks[axis] = draw(st.sampled_from(["-5", "-100", "-0.5", "-1e2", "0"]))
+                if axis == 2:
+                    dw = draw(st.sampled_from([-10, -100.0, "-3.5", -0.5, 0]))
+                else:
+                    dh = draw(st.sampled_from([-10, -100.0, "-3.5", -0.5, 0]))
+            vb_text = " ".join(toks)
+            sem = {"kind": "identity", "why": "nonpositive"}
+            tags.add("both_sizes_of_an_axis_nonpositive")
         else:
             if draw(st.booleans()):
                 dw = draw(st.sampled_from([0, -10, 0.0, "0", "-3.5"]))
